@@ -37,6 +37,8 @@ def run(chk):
     lines += gen_poly.make_lazy_cases(chk.seed * 7 + 11, 260 if chk.quick else 5000, maxdim=3)
     # boundary family: constraints / congruences / directions whose hyperplanes pass through a known vertex
     lines += gen_poly.make_touch_cases(chk.seed * 13 + 5, 120 if chk.quick else 2500, maxdim=3)
+    # points and closure points with different divisors (matching of closure points, strong minimization of NNC)
+    lines += gen_poly.make_nncdiv_cases(chk.seed * 19 + 7, 400 if chk.quick else 6000)
     # every mutator applied to objects that hold PENDING rows (both descriptions minimized, then one more row):
     # the state in which a mutator most easily leaves the two descriptions / the status word inconsistent
     nm = 160 if chk.quick else 3000
